@@ -757,11 +757,12 @@ class DCM(np.ndarray):
         (array([ 0.81187135, -0.43801381,  0.38601658]), 0.6742208510527136)
 
         """
-        angle = np.arccos((self.A.trace()-1)/2)
+        S = np.array([self.A[2, 1]-self.A[1, 2], self.A[0, 2]-self.A[2, 0], self.A[1, 0]-self.A[0, 1]])
+        norm_S = np.linalg.norm(S)
+        angle = np.arctan2(0.5*norm_S, (self.A.trace()-1)/2)
         axis = np.zeros(3)
-        if angle!=0:
-            S = np.array([self.A[2, 1]-self.A[1, 2], self.A[0, 2]-self.A[2, 0], self.A[1, 0]-self.A[0, 1]])
-            axis = S/(2*np.sin(angle))
+        if norm_S > 0:
+            axis = S/norm_S
         return axis, angle
 
     def to_axang(self) -> Tuple[np.ndarray, float]:
